@@ -38,7 +38,19 @@ def gstateJ (g : GState) : Json :=
     ("a1", Json.str (g.getAction true).name), ("a2", Json.str (g.getAction false).name),
     ("kc", listJ candJ g.knockCandidates)]
 
-/-- op "gin": play operations on a gin rummy / ricky game -/
+def Hud.ofString? : String → Option Hud
+  | "1" => some .p1 | "2" => some .p2 | "t" => some .top | "d" => some .disc | _ => none
+
+/-- one entry `[card, loc]` of a public card map, in the encoding `gstateJ` prints (`Hud.name`) -/
+def asHudEntry (j : Json) : P (Card × Hud) := do
+  match ← asArr j with
+  | [c, l] => match Hud.ofString? (← asStr l) with
+    | some l => pure (← asCard c, l)
+    | none => throw "hud0: location"
+  | _ => throw "hud0: expected [card, loc]"
+
+/-- op "gin": play operations on a gin rummy / ricky game; the optional `hud0` is the constructor's `public_hud`
+(absent / null: none given; an array of `[card, loc]` pairs, `[]` for the empty map) -/
 def opGin (j : Json) : P Json := do
   let variant ← asStr (← fld j "variant")
   let maxTurns ← asOpt asNat (fldD j "max_turns" Json.null)
@@ -46,8 +58,11 @@ def opGin (j : Json) : P Json := do
   let sh ← asList asNat (fldD j "shuffle" (Json.arr #[Json.num 0, Json.num 0]))
   let shuffle := shuffleRule (sh.getD 0 0) (sh.getD 1 0)
   let turn ← match Turn.ofString? (← asStr (← fld j "turn")) with | some t => pure t | none => throw "turn"
-  let g0 := newGame params (← asCards (← fld j "deck")) (← asCards (← fld j "discard"))
-              (← asCards (← fld j "p1")) (← asCards (← fld j "p2")) turn
+  -- `dict(pairs)`: a card listed twice keeps its first position and its last location
+  let hud0 := (← asOpt (asList asHudEntry) (fldD j "hud0" Json.null)).map
+    fun l => l.foldl (fun h e => hudSet h e.1 e.2) []
+  let g0 := newGameWith params (← asCards (← fld j "deck")) (← asCards (← fld j "discard"))
+              (← asCards (← fld j "p1")) (← asCards (← fld j "p2")) turn hud0
   match g0 with
   | .error e => pure (Json.mkObj [("ctor", errJ e), ("steps", Json.arr #[])])
   | .ok g0 =>
